@@ -254,4 +254,72 @@ class C04Refine(Harness):
         env.observe("r", res.radius)
 
 
-HARNESSES = [C04Refine]
+class C04SelfImage(Harness):
+    name = "C04SelfImage"
+    prop = "C04"
+    bounds = ("refine_droplet on the image rendered from the candidate itself (get_phase_field with symbolic levels vmin < vmax; "
+              "candidate position and radius symbolic on Cartesian 1D 5 cells (n / p), width symbolic on polar 4 / spherical 4); "
+              "diffuse candidates, 2D perturbed candidate on the polar grid; levels supplied / fitted: the "
+              "residual handed to the optimiser at the start is exactly zero in every cell of the fitted region (the candidate "
+              "is a global minimiser of the fit problem); float replays: the real optimiser returns the candidate unchanged "
+              "up to 1e-6")
+    stubs = C04Refine.stubs
+    cost = 2
+    mod_mode = "fork"
+    exact_validation = False
+
+    def configs(self, tier):
+        out = []
+        for g, cls, sym in [("c1n", "DiffuseDroplet", True), ("polar", "DiffuseDroplet", False),
+                            ("polar", "PerturbedDroplet2D", False), ("sph", "DiffuseDroplet", False)] + \
+                ([("c1", "DiffuseDroplet", True)] if tier == "thorough" else []):
+            for adj in (False, True):
+                out.append(dict(GRIDS[g], g=g, cls=cls, sym=sym, adjust=adj, _cost=3 if sym else 1))
+        return out
+
+    def install(self, env, cfg):
+        if env.mode != "float":
+            from symx.models import optimize
+            optimize.reset(cost=False, window=F(1, 2))
+
+    def sample(self, cfg, rng):
+        sp = gridfam.spec_of(cfg)
+        w = dict(vmin=F(rng.randint(-1500, 300), 1000), vmax=F(rng.randint(700, 1900), 1000), r=F(rng.randint(500, 1500), 1000),
+                 w=F(rng.randint(400, 1200), 1000))
+        if sp["kind"] == "cart":
+            for a, (lo, hi) in enumerate(sp["bounds"]):
+                w[f"p{a}"] = lo + (hi - lo) * F(rng.randint(300, 700), 1000)
+        return w
+
+    def body(self, env, cfg):
+        grid, sp = gridfam.make(env, cfg)
+        cls = cfg["cls"]
+        cand, pos, r, w0, amps = candidate(env, sp, cls, cfg["sym"])
+        # symbolic candidate position / radius (1D): concrete width, so that the dilation count does not fork as well
+        wd = env.real("w", F(1, 4), F(3, 2)) if not cfg["sym"] else (env.const(F(3, 4)) if env.mode != "float" else 0.75)
+        cand.interface_width = wd
+        vmin, vmax = env.real("vmin", -2, 2), env.real("vmax", -2, 2)
+        env.assume(vmin < vmax, "outside level below inside level")
+        image = cand.get_phase_field(grid, vmin=vmin, vmax=vmax)
+        before = [env.num(x) for x in cand.position] + [env.num(cand.radius), env.num(cand.interface_width)] + \
+            [env.num(a) for a in getattr(cand, "amplitudes", [])]
+        res = env.IA.refine_droplet(image, cand.copy(), vmin=vmin, vmax=vmax, adjust_values=cfg["adjust"])
+        if env.mode != "float":
+            from symx.models import optimize
+            calls = optimize.CONFIG["calls"]
+            env.prove("least_squares called exactly once", len(calls) == 1)
+            if len(calls) == 1:
+                f0 = calls[0]["f0"].reshape(-1)
+                env.cover("fitted region is not empty", len(f0) > 0)
+                for i, v in enumerate(f0):
+                    env.prove_eq(f"image rendered from the candidate: residual at the start is zero [{i}]", v, 0)
+        else:
+            after = [env.num(x) for x in res.position] + [env.num(res.radius), env.num(res.interface_width)] + \
+                [env.num(a) for a in getattr(res, "amplitudes", [])]
+            for i, (a, b) in enumerate(zip(before, after)):
+                env._rec(f"image rendered from the candidate: returned unchanged up to solver tolerance [{i}]",
+                         abs(a - b) <= 1e-6 * (1 + abs(a)), f"{a!r} -> {b!r}")
+        env.observe("r", res.radius)
+
+
+HARNESSES = [C04Refine, C04SelfImage]
